@@ -55,7 +55,8 @@ func newFileKey(cipher Cipher) (fileKey, error) {
 	}
 
 	// Return the object
-	return importFileKey(rnd[0:32], rnd[32:39], cipher)
+	// The capacity of each slice is limited to its length: the file key is handed to the caller's WrapKeyFn, and an append to it must not write into the nonce prefix that follows it in the same array
+	return importFileKey(rnd[0:32:32], rnd[32:39:39], cipher)
 }
 
 func importFileKey(fileKey, noncePrefix []byte, cipher Cipher) (fk fileKey, err error) {
